@@ -165,7 +165,8 @@ class C13(Property):
         "element identity = position in a functional tree (parents/root are derived; pointer upkeep is C08's subject)",
     ]
     assumptions = [
-        "Dict keys are unique strings (they are dict keys); unnamed Dict fields are out of scope; that a child's key "
+        "Dict keys are unique (they are dict keys); an UNNAMED Dict field (name None, at most one per Dict) is stored "
+        "under the key None and is in scope since 05c4adc (model: key = none, empty path step); that a child's key "
         "equals its name is NOT assumed (hypothesis [KeyIsName], KF-C13-c)",
         "a sequence never has 10^4300 or more members (int() digit limit)",
     ]
@@ -181,9 +182,16 @@ class C13(Property):
         "child on the way is stored under its own name (find_fq_iff; pathOK_of_find_fq: a successful round trip forces "
         "every lookup on the way to hit its own child); KF-C13-c is thereby a general theorem (C13_key_mismatch_fails: "
         "every spellable, non-addressable position breaks the law from every start; the old witness is an instance, "
-        "C13_full_fails_key_general). KF-C13-b at the first level is a general theorem too (k4, C13_empty_name_fails_top_partial: in "
-        "EVERY tree a child named '' directly below a non-sequence root has fq_name() '/', which finds the root, from "
-        "every start). NOT proved necessary in general: the two unspellable classes (a Dict field named '' — KF-C13-b, "
+        "C13_full_fails_key_general). Since 05c4adc (the model follows it) an unnamed field and a field named '' both emit the empty "
+        "step, with a slash of its own when it comes last ('//', '/l/0//'), and find() looks the empty step up under the "
+        "key None: find_fq_unnamed (in EVERY tree an unnamed first-level field of a mapping root is found, alone, by its "
+        "fq_name() '//', from every start, strict or not; find_slash2, tokenize_slash2, fqName_empty_top) and its "
+        "negative twin C13_empty_name_fails_top_partial (KF-C13-b at the first level: a field that emits the empty step "
+        "but is not the one stored under None breaks the law: LookupError, or the unnamed sibling). The general theorems "
+        "(find_fq_addressable, find_fq_iff, C13_key_mismatch_fails) carry the explicit hypothesis namedFrom (no unnamed "
+        "field on the way): deeper unnamed fields need tokenize on emitted strings with empty segments and are tied to "
+        "the code by correspondence; the Lean runner re-checks spellable -> (law <-> addressable), unnamed fields "
+        "included, on every generated tree. NOT proved necessary in general: the two unspellable classes (a Dict field named '' — KF-C13-b, "
         "C13_full_fails; anything below a name ending in a backslash — KF-C13-a, C13_full_fails_backslash) are still "
         "refuted by one witness each, because the converse there needs the tokenizer on arbitrary (ill-formed) emitted "
         "strings; the Lean runner re-checks the iff on every spellable position of every generated tree and the "
